@@ -78,6 +78,7 @@ pub struct Context {
     define_regex: Regex,
     pub literal_strings: Vec<String>,
     literal_strings_number: u32,
+    last_line_unterminated: bool,
 }
 
 impl Context {
@@ -94,7 +95,8 @@ impl Context {
             regexes: Vec::new(),
             define_regex: Regex::new(r"([a-zA-Z_][a-zA-Z0-9_]*)(?:\(((?:(?:[a-zA-Z_][a-zA-Z0-9_]*)\s*,\s*)*(?:(?:[a-zA-Z_][a-zA-Z0-9_]*))*)\))?\s*(.*)").unwrap(),
             literal_strings: Vec::new(),
-            literal_strings_number: 0
+            literal_strings_number: 0,
+            last_line_unterminated: false,
         };
         c.regex_sets.push(RegexSet::empty());
         c.defs_ex.push(Vec::new());
@@ -722,6 +724,13 @@ pub fn process<I: BufRead, O: Write>(
                                 context.current_filename = fname.clone();
                                 context.includes_stack.push((filename.clone(), line));
                                 let mut mapped_lines = process(f, output, context, assembler)?;
+                                // An included file whose last line lacks a newline must not swallow
+                                // the line that follows the #include (it would shift every later
+                                // line of the line mapping by one)
+                                if context.last_line_unterminated {
+                                    output.write_all(b"\n")?;
+                                    context.last_line_unterminated = false;
+                                }
                                 context.includes_stack.pop();
                                 context.current_filename = filename.clone();
                                 lines.append(&mut mapped_lines);
@@ -844,6 +853,7 @@ pub fn process<I: BufRead, O: Write>(
                     if !new_line.ends_with('\n') && has_lf {
                         output.write_all(b"\n")?;
                     }
+                    context.last_line_unterminated = !new_line.ends_with('\n') && !has_lf;
                 }
             }
         }
